@@ -41,10 +41,11 @@ PROGRAM_THEOREMS = {
 _NF = ["Bb.Nf.nf_sound", "Bb.Nf.bodiesEquiv_sound"]
 _TVG = ["Bb.TV.getter_validated", "Bb.TV.getter_validated_plain", "Bb.TV.accepted_getter_validated"]
 _TVS = ["Bb.TV.setter_validated", "Bb.TV.accepted_setter_validated"]
+_TVH = ["Bb.TV.history_validated_exists", "Bb.TV.history_validated_unique", "Bb.TV.history_validated_bits"]
 _TVO = ["Bb.TV.getter_validated_oob", "Bb.TV.setter_validated_oob"]
 TV_THEOREMS = {
     "C01": _NF + _TVG, "C02": _NF + _TVS, "C03": _NF + _TVG + _TVS + _TVO, "C04": _NF + _TVG + _TVS, "C05": _NF + _TVG + _TVS,
-    "C06": _NF, "C08": _NF + _TVG + _TVS, "C11": _NF + _TVS, "C12": _NF + _TVS, "C13": _NF + _TVS,
+    "C06": _NF, "C08": _NF + _TVG + _TVS, "C11": _NF + _TVS + _TVH, "C12": _NF + _TVS + _TVH, "C13": _NF + _TVS + _TVH,
     "C16": _NF + _TVO + ["Bb.TV.validated_profile_independent"],
 }
 
